@@ -435,7 +435,15 @@ char *sasl_scram(xmpp_ctx_t *ctx,
     if (!sval) {
         goto out;
     }
+    /* refuse what SCRAM_Hi() can't process instead of running into its
+     * assertion, and iteration counts that aren't positive numbers */
+    if (sval_len > SCRAM_SALT_MAX_LEN) {
+        goto out_sval;
+    }
     ival = strtol(i, &saveptr, 10);
+    if (ival <= 0) {
+        goto out_sval;
+    }
 
     /* "c=<channel_binding>," + r + ",p=" + sign_b64 + '\0' */
     response_len = 3 + strlen(channel_binding) + strlen(r) + 3 +
